@@ -10,9 +10,6 @@ Open Scope Q_scope.
 (* ------------------------------------------------------------------------------------------ *)
 (* small complex facts                                                                        *)
 (* ------------------------------------------------------------------------------------------ *)
-Lemma cred_eq : forall z, ceq (cred z) z.
-Proof. intros [x y]. unfold cred, ceq. simpl. split; apply Qred_correct. Qed.
-
 Lemma cdiv_mul : forall a r, ceq (cdiv a r) (cmul (cinv r) a).
 Proof. intros. unfold cdiv. ring. Qed.
 
